@@ -152,6 +152,25 @@ Proof.
   cbn beta. intros ld' g [-> E']. split; [reflexivity|]. now rewrite E', E.
 Qed.
 
+(* the same, remembering that the inheritance check passed *)
+Lemma get_layers_spec_ci c um f0 :
+  hoare (fun g => g = f0) (get_layers c um)
+        (fun ld g => g = f0 /\ (map static (ld_map ld) = map static (read_layer_files c f0)
+                               /\ check_inheritance (read_layer_files c f0) = true))
+        (fun g => g = f0).
+Proof.
+  unfold get_layers. apply h_bind with (Q := fun ld g => g = f0 /\ (ld_map ld = read_layer_files c f0
+                                                   /\ check_inheritance (read_layer_files c f0) = true)).
+  - unfold find_layers.
+    apply h_bind with (Q := fun f g => g = f0 /\ f = g); [apply h_get_fs|]. intros f.
+    destruct (negb (is_dir f (c_layers c))); [apply h_fail; tauto|].
+    destruct (negb (check_inheritance (read_layer_files c f))) eqn:Eci; [apply h_fail; tauto|].
+    destruct (normalize_order (read_layer_files c f)); [|apply h_diverge; tauto].
+    apply h_ret. intros g [-> ->]. apply negb_false_iff in Eci. auto.
+  - intros ld. apply h_pure. intros [E Hci]. eapply h_post; [apply probe_all_spec|].
+    cbn beta. intros ld' g [-> E']. split; [reflexivity|]. split; [now rewrite E', E|exact Hci].
+Qed.
+
 (* a loaded layer lives in <layers>/<name> *)
 Lemma loaded_path c f : Forall (fun l => l_path l = layer_path c (l_name l)) (read_layer_files c f).
 Proof.
